@@ -75,6 +75,31 @@ class Ctx(object):
         if k in self._pbind:
             return self._pbind[k]
         self._pbind[k] = {}
+        # a lambda's body names the enclosing function's locals: a captured const local denotes what the enclosing
+        # function knows it to denote
+        lam = None
+        p_ = fn.get('_p')
+        while p_ is not None and p_.get('kind') not in ('FunctionDecl', 'CXXMethodDecl', 'CXXConstructorDecl', 'LambdaExpr'):
+            p_ = p_.get('_p')
+        if p_ is not None and p_.get('kind') == 'LambdaExpr' and fn.get('name') == 'operator()':
+            lam = p_
+        if lam is not None:
+            from .frontend import owner_fn, walk as _walk, qtype as _qt
+            from .expr import top_level_const
+            enc = owner_fn(lam)
+            out = {}
+            if enc is not None:
+                FE = self.facts(enc)
+                for y in _walk(fn):
+                    if y.get('kind') == 'DeclRefExpr' and (y.get('referencedDecl') or {}).get('kind') == 'VarDecl':
+                        i = (y.get('referencedDecl') or {}).get('id')
+                        d = fn['_u'].by_id.get(i)
+                        if d is None or i in out or owner_fn(d) is not enc:
+                            continue
+                        if top_level_const(_qt(d)) and i in getattr(FE, '_ident', {}):
+                            out[i] = FE._ident[i]
+            self._pbind[k] = out
+            return out
         if not is_internal(fn):
             return {}
         me = fkey(fn)
